@@ -77,10 +77,14 @@ class Uncommitted(Monitor):
             if mech == 'scheduler-runs-uncommitted-job' and j is not None and j['job_group_id'] != 0:
                 grp = v.groups.get((k[0], j['job_group_id']))
                 gupd = v.updates.get((k[0], grp['update_id'])) if grp else None
-                if grp is not None and not (gupd and gupd['committed']) and grp['state'] != 'running':
+                posts = [q for q in getattr(self.r.fz, 'worker_posts', []) if tuple(q['job']) == k]
+                handed_over_while_running = any(q.get('group_state') == 'running' for q in posts)
+                if grp is not None and not (gupd and gupd['committed']) and grp['state'] != 'running' and not handed_over_while_running:
                     # the recorded finding is about Ready jobs placed in groups that are running; a group created by an open update is
                     # 'complete' until a commit makes it running (its own, or that of a LATER update which put jobs into it - a hostile
-                    # client can commit out of order), and the unchanged scheduler does not visit groups that are not running
+                    # client can commit out of order), and the unchanged scheduler does not visit groups that are not running.  The group
+                    # may be 'complete' again by the time a late start report arrives: what counts is its state when the job was
+                    # handed to the worker (the fake worker's hand-over log)
                     mech = 'scheduler-runs-job-in-group-of-uncommitted-update'
             self.r.violation(f'uncommitted-job-changed/{mech}', f'job {k} of an uncommitted update changed ({cause}) during {opname}', {'job': list(k), 'cause': cause, 'op': opname})
         has_uncommitted_jobs = {}
